@@ -19,7 +19,7 @@ ULPS_RT = 16        # "a few ulps" for round trips / composition (each direction
 
 
 def magnitudes(rng: random.Random, n_rand: int):
-    base = [0.0, 1.0, -1.0, 3.0, -3.0]
+    base = [0.0, 1.0, -1.0, 3.0, -3.0, 0, 1, -1, 3, 7, 12, -12, 100]      # plain ints too: the constructors accept int or float
     for e in range(-9, 10, 3 if n_rand < 50 else 1):
         base += [10.0 ** e, -(10.0 ** e)]
     for _ in range(n_rand):
